@@ -376,6 +376,10 @@ impl Read for std::fs::File {
         use std::os::unix::fs::FileExt;
         #[cfg(jiff_verif)]
         crate::verif::point("cc.read_at");
+        #[cfg(jiff_verif)]
+        if crate::verif::fault("cc.read_at") {
+            return Err(Error::io(crate::verif::injected_error()));
+        }
         FileExt::read_exact_at(self, buf, offset).map_err(Error::io)
     }
 }
